@@ -418,6 +418,9 @@ func descD(v ssa.Value, depth int) string {
 				return "<" + typeShort(n) + ">"
 			}
 		}
+		if b, ok := paramBind[x]; ok {
+			return b // only plain parameters are translated; objects of module struct types stay type-rooted
+		}
 		return fmt.Sprintf("arg#%d", paramIndex(x))
 	case *ssa.FreeVar:
 		return "free:" + x.Name()
@@ -874,4 +877,70 @@ func inductionName(header *ssa.BasicBlock) string {
 		return "#j"
 	}
 	return "#k"
+}
+
+// ---- looking into a callee on behalf of a call site ----------------------------------------------------
+//
+// paramBind: while an analysis examines a module-internal callee in order to discharge an obligation of its
+// caller (a block of checks that was extracted into a helper, a loop body that became a function), the
+// callee's parameters are described as the caller's arguments. Descriptors of fields are type-rooted and
+// need no translation; only plain parameters (`arg#k`) do.
+var paramBind = map[*ssa.Parameter]string{}
+
+// bindCall runs f with g's parameters bound to the arguments of the call c (descriptors taken in the
+// current context, so bindings compose along a call chain).
+func bindCall(c ssa.CallInstruction, g *ssa.Function, f func()) {
+	cc := c.Common()
+	var args []ssa.Value
+	if cc.IsInvoke() {
+		args = append([]ssa.Value{cc.Value}, cc.Args...)
+	} else {
+		args = cc.Args
+	}
+	// closures: free variables are not rebound (their descriptors are `free:name`)
+	type saved struct {
+		p   *ssa.Parameter
+		old string
+		had bool
+	}
+	var sv []saved
+	descs := make([]string, len(args))
+	for i, a := range args {
+		descs[i] = desc(a)
+	}
+	for i, p := range g.Params {
+		if i >= len(args) {
+			break
+		}
+		old, had := paramBind[p]
+		sv = append(sv, saved{p, old, had})
+		paramBind[p] = descs[i]
+	}
+	defer func() {
+		for _, x := range sv {
+			if x.had {
+				paramBind[x.p] = x.old
+			} else {
+				delete(paramBind, x.p)
+			}
+		}
+	}()
+	f()
+}
+
+// bindingSig: the current binding of fn's parameters (part of every cache key that depends on descriptors).
+func bindingSig(fn *ssa.Function) string {
+	if fn == nil || len(paramBind) == 0 {
+		return ""
+	}
+	var sb strings.Builder
+	for _, p := range fn.Params {
+		if b, ok := paramBind[p]; ok {
+			sb.WriteString("|")
+			sb.WriteString(p.Name())
+			sb.WriteString("=")
+			sb.WriteString(b)
+		}
+	}
+	return sb.String()
 }
